@@ -1479,16 +1479,61 @@ def install(m):
 
     @reg('from_utf8_lossy')
     def _from_utf8_lossy(m, a, c, rt):
+        """String::from_utf8_lossy, exact: every maximal invalid prefix (core::str::Utf8Chunks) becomes U+FFFD; one fork per byte class."""
         v = a[0]
         es = elems_of(m, v)
-        if utf8_valid(m, es):
+        out = []
+        changed = False
+        i, n = 0, len(es)
+
+        def rng(e, lo, hi):
+            return (lo <= e.v <= hi) if not e.sym else z3.And(z3.UGE(e.v, lo), z3.ULE(e.v, hi))
+        FFFD = [Int('u8', 0xEF), Int('u8', 0xBF), Int('u8', 0xBD)]
+        while i < n:
+            b = es[i]
+            if m.ctx.branch(rng(b, 0x00, 0x7F)):
+                out.append(b)
+                i += 1
+                continue
+            if m.ctx.branch(rng(b, 0xC2, 0xDF)):
+                need, lo, hi = 1, 0x80, 0xBF
+            elif m.ctx.branch(rng(b, 0xE0, 0xE0)):
+                need, lo, hi = 2, 0xA0, 0xBF
+            elif m.ctx.branch(rng(b, 0xED, 0xED)):
+                need, lo, hi = 2, 0x80, 0x9F
+            elif m.ctx.branch(rng(b, 0xE1, 0xEF)):
+                need, lo, hi = 2, 0x80, 0xBF
+            elif m.ctx.branch(rng(b, 0xF0, 0xF0)):
+                need, lo, hi = 3, 0x90, 0xBF
+            elif m.ctx.branch(rng(b, 0xF4, 0xF4)):
+                need, lo, hi = 3, 0x80, 0x8F
+            elif m.ctx.branch(rng(b, 0xF1, 0xF3)):
+                need, lo, hi = 3, 0x80, 0xBF
+            else:
+                out += FFFD
+                changed = True
+                i += 1
+                continue
+            j = i + 1
+            good = True
+            for k in range(need):
+                if j >= n:
+                    good = False
+                    break
+                r0, r1 = (lo, hi) if k == 0 else (0x80, 0xBF)
+                if not m.ctx.branch(rng(es[j], r0, r1)):
+                    good = False
+                    break
+                j += 1
+            if good:
+                out += es[i:j]
+            else:
+                out += FFFD
+                changed = True
+            i = j
+        if not changed:
             return Adt('Cow', 'Borrowed', [Ptr(v.root, v.path, ('str', v.meta[1], v.meta[2]))])
-        cb = concrete_bytes(es)
-        if cb is None:
-            # content with replacement characters: over-approximate by an opaque owned string of the same bytes
-            m.ctx.events.append(('lossy_symbolic',))
-            return Adt('Cow', 'Owned', [new_string(es)])
-        return Adt('Cow', 'Owned', [mk_string(cb.decode('utf-8', 'replace'))])
+        return Adt('Cow', 'Owned', [new_string(out)])
 
     # ---------------------------------------------------------------- comparisons
     @reg('eq', 'ne')
@@ -1753,12 +1798,19 @@ def install(m):
     @reg('join', 'concat')
     def _join(m, a, c, rt):
         items = elems_of(m, a[0])
-        sep = elems_of(m, a[1]) if len(a) > 1 else []
+        sep = []
+        if len(a) > 1:
+            sv = a[1]
+            while isinstance(sv, Ptr) and sv.meta is None:
+                sv = m.load(sv)
+            sep = [sv] if isinstance(sv, Int) else elems_of(m, a[1])      # [T]::join(&T) / join(&[T]) / str join(&str)
         out = []
         for i, it in enumerate(items):
             if i:
                 out.extend(sep)
             out.extend(elems_of(m, it))
+        if len(a) > 1 and isinstance(sv, Int):
+            return VecObj(out)          # [V]::join(&T) -> Vec<T>
         return new_string(out)
 
     def sort_list(m, items, less):
@@ -2138,6 +2190,13 @@ def install(m):
     for n in range(1, 5):
         L['debug_tuple_field%d_finish' % n] = _dbg_tuple_n(n)
 
+    @reg('Result::and', 'Option::and', 'and')
+    def _and(m, a, c, rt):
+        x = a[0]
+        if isinstance(x, Adt) and x.variant in ('Ok', 'Some'):
+            return a[1]
+        return x
+
     @reg('Formatter::alternate', 'alternate')
     def _alternate(m, a, c, rt):
         return bool(deref(m, a[0]).alternate)
@@ -2487,10 +2546,43 @@ def install2(m):
         p = a[0] if (isinstance(a[0], Ptr) and a[0].meta is not None) else fat(m, a[0], 'str')
         es = elems_of(m, p)
         if not c.method.startswith('trim_ascii'):
-            for e in es:
-                if not m.ctx.branch((e.v < 0x80) if not e.sym else z3.ULT(e.v, 0x80)):
-                    raise Unsupported('str::trim on non-ASCII text')
-            pred = ws_pred
+            # char::is_whitespace = Unicode White_Space: ASCII 09-0D, 20 and the multi-byte U+0085, U+00A0, U+1680, U+2000-200A,
+            # U+2028, U+2029, U+202F, U+205F, U+3000
+            MULTI = [(0xC2, 0x85), (0xC2, 0xA0), (0xE1, 0x9A, 0x80), (0xE2, 0x80, 0xA8), (0xE2, 0x80, 0xA9), (0xE2, 0x80, 0xAF),
+                     (0xE2, 0x81, 0x9F), (0xE3, 0x80, 0x80)] + [(0xE2, 0x80, 0x80 + k) for k in range(0x0B)]
+
+            def eqb(e, v):
+                return (e.v == v) if not e.sym else (e.v == z3.BitVecVal(v, 8))
+
+            def ws_at_start(lo, hi):
+                if lo < hi and m.ctx.branch(ws_pred(es[lo])):
+                    return 1
+                for pat in MULTI:
+                    if lo + len(pat) <= hi and m.ctx.branch(zand(*[eqb(es[lo + k], b) for k, b in enumerate(pat)])):
+                        return len(pat)
+                return 0
+
+            def ws_at_end(lo, hi):
+                if hi > lo and m.ctx.branch(ws_pred(es[hi - 1])):
+                    return 1
+                for pat in MULTI:
+                    if hi - len(pat) >= lo and m.ctx.branch(zand(*[eqb(es[hi - len(pat) + k], b) for k, b in enumerate(pat)])):
+                        return len(pat)
+                return 0
+            lo, hi = 0, len(es)
+            if not c.method.endswith('end'):
+                while lo < hi:
+                    k = ws_at_start(lo, hi)
+                    if not k:
+                        break
+                    lo += k
+            if not c.method.endswith('start'):
+                while hi > lo:
+                    k = ws_at_end(lo, hi)
+                    if not k:
+                        break
+                    hi -= k
+            return sub(p, lo, hi - lo)
         else:
             def pred(e):
                 if not e.sym:
